@@ -171,7 +171,10 @@ def collect(ctx: Ctx, profile: str):
             before = vkey(v)
             w, wv = vs.out_of(M, v)
             again, _ = vs.out_of(M, v)
-            ev = {"ev": "marshal", "T": T, "w": w, "json_ok": True, "again": again == w, "shared": 0, "intact": vkey(v) == before}
+            # the one-shot entry point, with the annotation spelled anew (a fresh object) for the call: the same outcome
+            ww, _ = vs.out_of(typelib.marshal, v, t=env.annotation(T))
+            ev = {"ev": "marshal", "T": T, "w": w, "json_ok": True, "again": again == w, "shared": 0, "intact": vkey(v) == before,
+                  "wrapper": ww == w}
             if w["k"] == "ok":
                 try:
                     json.dumps(wv)
@@ -192,6 +195,9 @@ def collect(ctx: Ctx, profile: str):
                 if any(nm == m and type(nm) is type(m) for m in members) or nm in members:
                     continue
                 w, _ = vs.out_of(M, nm)
+                ww, _ = vs.out_of(typelib.marshal, nm, t=env.annotation(T))
+                if ww != w:
+                    w = {"k": "ok", "r": {"k": "str", "cls": "str", "s": "marshal() and marshaller() disagree"}}
                 events.append({"ev": "litreject", "T": T, "w": w})
                 meta.append(("nonmember", repr(nm)))
     # passive source: every marshal() call the repository's own test suite makes (bytes-like outputs are outside C06)
